@@ -163,6 +163,9 @@ def hist_cases(draw, entry, families):
             "entry": entry, "container": draw(st.sampled_from(["array", "array", "list", "strided", "reversed-view",
                                                                 "record-field", "byteswapped"])),
             "lim_int": lim_int}
+    if entry == "binner":
+        case["again"] = draw(st.lists(st.sampled_from(["drop-limits", "drop-min", "drop-max", "same",
+                                                       "other-binning"]), min_size=0, max_size=2))
     return case
 
 
@@ -200,6 +203,26 @@ def _layout(container, x):
     return x
 
 
+def _again_specs(case, kw):
+    """Settings for further dohist calls on the same Binner object (drawn with the case)."""
+    out = []
+    for how in case.get("again", []):
+        kw2 = dict(kw)
+        if how == "drop-limits":
+            kw2["min"], kw2["max"] = None, None
+        elif how == "drop-min":
+            kw2["min"] = None
+        elif how == "drop-max":
+            kw2["max"] = None
+        elif how == "other-binning":
+            if "nbin" in kw2:
+                kw2["nbin"] = kw2["nbin"] + 1
+            else:
+                kw2["binsize"] = kw2["binsize"] * 2.0
+        out.append(kw2)
+    return out
+
+
 def _call(case, x, vmin, vmax):
     import esutil.stat as es
     data = _layout(case["container"], x)
@@ -223,7 +246,29 @@ def _call(case, x, vmin, vmax):
     if isinstance(r, Raised):
         return r
     require("hist" in b and "rev" in b, "Binner.dohist(rev=True) left no 'hist'/'rev' entries")
-    return b["hist"], b["rev"], b
+    first = (b["hist"].copy(), b["rev"].copy())
+    snapshot = {"nbin": b["nbin"], "binsize": b["binsize"]}
+    # a Binner can be histogrammed again with other settings: the result must be that of a fresh Binner
+    # (nothing of the earlier call -- limits, sort order, bin layout -- may leak into the later one)
+    for kw2 in _again_specs(case, kw):
+        x64 = np.atleast_1d(x).astype("f8")
+        if hm.in_limits(x64, x64.min() if kw2["min"] is None else kw2["min"],
+                        x64.max() if kw2["max"] is None else kw2["max"]).any():
+            d2 = hm.derive(x64, kw2.get("binsize"), kw2.get("nbin"), kw2["min"], kw2["max"])
+            if max(d2["nbin_alt"]) > 20000:
+                continue        # dropping a limit can blow the bin count up; such calls are not made
+        r2 = sut(b.dohist, rev=True, **kw2)
+        fresh = es.Binner(_layout(case["container"], x))
+        r3 = sut(fresh.dohist, rev=True, **kw2)
+        if isinstance(r2, Raised) or isinstance(r3, Raised):
+            require(isinstance(r2, Raised) and isinstance(r3, Raised) and type(r2.exc) is type(r3.exc),
+                    "second dohist(%r) on a used Binner: %r, on a fresh Binner: %r", kw2, r2, r3)
+            continue
+        for key in ("hist", "rev"):
+            require(np.array_equal(b[key], fresh[key]), "second dohist(%r) on a Binner that already served "
+                    "dohist(%r): %s=%r, a fresh Binner gives %r", kw2, kw, key, np.asarray(b[key]).tolist()[:40],
+                    np.asarray(fresh[key]).tolist()[:40])
+    return first[0], first[1], snapshot
 
 
 def check_hist(case, ctx):
